@@ -182,10 +182,24 @@ func c07r1(c *Ctx) {
 		c.FailX(Oblig{Rule: rule, Func: FuncName(r.Entry), Construct: "counter read and written under one key of the sender account", Pos: pos, Kind: "violation",
 			Detail: fmt.Sprintf("read (%s, %s) but write (%s, %s); expected sender account and Arguments[0] on both", rd.acct, rd.token, wr.acct, wr.token)})
 	}
-	rc := counterReadCall(r.Entry, rd)
+	// the value of the counter where it is used: the result of the outermost reader helper (a function returning the number
+	// and an error) on the way from the read up — in the entry point itself, or in a phase function below it
 	readRes := ""
-	if rc != nil {
-		readRes = e.Term(rc) + "#0"
+	{
+		y := rd.s.Env
+		for y != nil && y.Parent != nil && y.Call != nil {
+			res := y.Fn.Signature.Results()
+			if res.Len() == 2 && isInteger(res.At(0).Type()) && res.At(1).Type().String() == "error" {
+				if cv, ok := y.Call.(ssa.Value); ok {
+					readRes = y.Parent.Term(cv) + "#0"
+				}
+			} else {
+				break
+			}
+			y = y.Parent
+		}
+	}
+	if readRes != "" {
 	} else if rd.s.In.Parent() == r.Entry {
 		// the read is inlined into the entry point: the counter is the number decoded from the bytes read (0 when there are none)
 		readRes = inlinedCounterValue(e, rd.s.In.(*ssa.Call))
@@ -202,19 +216,27 @@ func c07r1(c *Ctx) {
 		c.FailX(Oblig{Rule: rule, Func: FuncName(r.Entry), Construct: "persisted counter = read + 1", Pos: pos, Kind: "violation",
 			Detail: "the counter persisted is " + wr.val + ", not the counter read plus one: nonces repeat or skip", Expected: want})
 	}
-	// the write cuts every success return
+	// the write cuts every success return — at every level of the chain that leads to it (phase functions included)
 	wcall := wr.s
 	var wtop ssa.CallInstruction = wcall.In.(ssa.CallInstruction)
-	for y := wcall.Env; y != nil && y.Parent != nil; y = y.Parent {
-		wtop = y.Call
-	}
-	pred := func(f Fact) bool { return !f.Lin && f.Pos && f.Call == wtop && strings.HasPrefix(f.Atom, "ok:") }
 	okAll := true
-	for _, ret := range returnsOf(r.Entry) {
-		if isSuccessReturn(ret) {
-			if _, ok := e.CutAt(ret, pred, nil); !ok {
-				okAll = false
+	{
+		var call ssa.CallInstruction = wcall.In.(ssa.CallInstruction)
+		for y := wcall.Env; y != nil; y = y.Parent {
+			lv, lc := y, call
+			pred := func(f Fact) bool { return !f.Lin && f.Pos && f.Call == lc && strings.HasPrefix(f.Atom, "ok:") }
+			for _, ret := range returnsOf(lv.Fn) {
+				if isSuccessReturn(ret) {
+					if _, ok := lv.CutAt(ret, pred, nil); !ok {
+						okAll = false
+					}
+				}
 			}
+			wtop = call
+			if y.Parent == nil || y.Call == nil {
+				break
+			}
+			call = y.Call
 		}
 	}
 	if okAll {
@@ -224,19 +246,26 @@ func c07r1(c *Ctx) {
 	}
 	// the same value is the metadata nonce, the return datum and the log topic
 	uses := map[string]string{}
-	for _, b := range r.Entry.Blocks {
-		for _, in := range b.Instrs {
-			switch v := in.(type) {
-			case *ssa.Store:
-				if fa, ok := v.Addr.(*ssa.FieldAddr); ok {
-					if isFieldOf(fa, "esdt.MetaData", "Nonce") {
-						uses["metadata nonce"] = e.LE(v.Val).String()
-					}
-					if isFieldOf(fa, "VMOutput", "ReturnData") {
-						uses["return datum"] = sliceLiteralElem(e, v.Val)
-					}
+	isUse := func(in ssa.Instruction) (string, bool) {
+		if st, ok := in.(*ssa.Store); ok {
+			if fa, ok := st.Addr.(*ssa.FieldAddr); ok {
+				if isFieldOf(fa, "esdt.MetaData", "Nonce") {
+					return "metadata nonce", true
+				}
+				if isFieldOf(fa, "VMOutput", "ReturnData") {
+					return "return datum", true
 				}
 			}
+		}
+		return "", false
+	}
+	for _, us := range c.P.EffectSites(r.Entry, "c07uses", isUse) {
+		v := us.In.(*ssa.Store)
+		switch us.Name {
+		case "metadata nonce":
+			uses["metadata nonce"] = us.Env.LE(v.Val).String()
+		case "return datum":
+			uses["return datum"] = sliceLiteralElem(us.Env, v.Val)
 		}
 	}
 	{
